@@ -8,22 +8,24 @@ from harness.suites import fe_rules
 
 
 MANIFEST = dict(
-    text='Two layers. PROVED (Lean 4, Props/C01.lean) about component models of the decision logic that follow '
-         'stone/frontend/ir_generator.py and stone/ir/data_types.py branch by branch: (a) type instantiation '
+    text='Two layers. PROVED (Lean 4, Props/C01.lean), full strength, about component models of the decision logic that '
+         'follow stone/frontend/ir_generator.py and stone/ir/data_types.py branch by branch: (a) type instantiation '
          '(_instantiate_data_type, the Void? test of _resolve_type, the __init__ parameter checks of every primitive and '
-         'of List / Map): an argument list that is legal by the "Basic Types" table of docs/lang_ref.rst is never '
-         'refused (full strength); for List, Map, Timestamp, Bytes, Boolean and Void acceptance is equivalent to '
-         'legality for every argument list (full strength: container_ok_iff_legal - the former holes `List(3)` and '
-         'non-integral list lengths are repaired in the code and pinned as refused); for the numeric types and String '
-         'acceptance implies legality outside two named holes of the present code, each witnessed (a falsy non-string '
-         'pattern `String(pattern=0)`, a bound beyond the far end of the width `Int32(min_value=2147483648)`); '
-         '(b) name registration (_add_data_types_and_routes_to_api, _create_*, _raise_symbol_already_defined, '
-         '_check_canonical_name_available): acceptance is equivalent to the pairwise no-clash rule and independent of '
-         'declaration / file order, under the hypothesis that the separator-less concatenation of _get_base_name is '
-         'unambiguous on the input (the failure without it is witnessed: `Ab` in namespace `c` against `A` in `bc`). '
-         'The component models are tied to the code by a translator (keyword / built-in / __init__ signature tables, '
-         'pinned by rfl / decide) and by differential runs of the real compiler (fe.params: exhaustive grid of kind x '
-         'argument shape x literal around every bound; fe.names: random small name sets). '
+         'of List / Map): an argument list is accepted exactly when it is legal by the "Basic Types" table of '
+         'docs/lang_ref.rst, for all thirteen built-in types and every argument list (instantiate_ok_iff_legal, '
+         'builtin_ref_ok_iff_legal; no excluded inputs - the holes earlier versions of the code had, `List(3)`, '
+         'non-integral list lengths, `String(pattern=0)`, `Int32(min_value=2147483648)`, are repaired in the code and '
+         'pinned as refused); (b) name registration (_add_data_types_and_routes_to_api, _create_*, '
+         '_raise_symbol_already_defined, _check_canonical_name_available): acceptance is equivalent to the pairwise '
+         'no-clash rule (register_ok_iff_noclash) and independent of declaration / file order and of how a namespace is '
+         'split into files (register_perm); the keys of _get_base_name are proved unambiguous (keys_unambiguous: the '
+         'separator "/" is stripped from the name part and cannot occur in a namespace name - the only hypothesis, '
+         'NsLexical, is the lexer\'s guarantee that a namespace name is an identifier); the inputs on which the former '
+         'separator-less key failed (`Ab` in namespace `c` against `A` in `bc`) are pinned as accepted. '
+         'The component models are tied to the code by a translator (keyword / built-in / __init__ signature / width / '
+         'canonical strip and separator tables, pinned by rfl / decide) and by differential runs of the real compiler '
+         '(fe.params: exhaustive grid of kind x argument shape x literal around every bound; fe.names: random small '
+         'name sets). '
          'TESTED, NOT PROVED (the end-to-end statement; a Lean model of the whole 1,800-line IR generator was out of '
          'reach): a by-construction oracle on the real specs_to_ir - every generated legal model under two layouts must '
          'compile, and each of ~100 rule-violation injectors (DESIGN Appendix A: S1-S10, A1-A34, B1-B26, C1-C13) applied '
